@@ -243,6 +243,15 @@ def f27_option_set_list_index():
         return f"Option('L.0').set({{}}, 7) = {r}, in which the option evaluates to {back} (list-indexed keys are written as mapping keys)"
 
 
+def f28_section_embedded_in_text():
+    from labrea import Template
+    t = Template("inputs={S}")
+    o = {"S": {"X": 1, "Y": 2}}
+    v, e = outcome(lambda: t.validate(o)), outcome(lambda: t(o))
+    if v[0] == "ok" and e[0] == "err":
+        return f"Template('inputs={{S}}') on {o}: validate passes, evaluate fails ({e}): str() of the section contains braces that the substitution takes for template keys"
+
+
 def scenarios():
     return {k: v for k, v in list(globals().items()) if k.startswith("f") and callable(v) and k[1].isdigit()}
 
